@@ -110,6 +110,9 @@ pub fn inline_all(m: &Model, method_types: &[&str]) -> std::collections::BTreeMa
         for f in m.fns.iter().filter(|f| f.self_ty.as_deref() == Some(*ty) && f.trait_.is_none()) {
             if f.sig.inputs.iter().any(|a| matches!(a, syn::FnArg::Receiver(_))) {
                 t.insert(format!(".{}", f.name), (params(f), f.block.clone()));
+            } else if !t.contains_key(&f.name) {
+                // associated fn without receiver (`Self::name(..)` / `Type::name(..)`): looked up by its last path segment
+                t.insert(f.name.clone(), (params(f), f.block.clone()));
             }
         }
     }
